@@ -116,3 +116,18 @@ func (m *Module) Build(pkg, bin string, extra ...string) (string, error) {
 	out, err := cmd.CombinedOutput()
 	return string(out), err
 }
+
+// GenerateRaw runs parse + generate without gofmt: the text the source map's target positions refer to.
+func GenerateRaw(src, fileName string) (raw string, out generator.GeneratorOutput, tf parser.TemplateFile, err error) {
+	tf, err = parser.ParseString(src)
+	if err != nil {
+		return "", out, tf, fmt.Errorf("parse: %w", err)
+	}
+	tf.Filepath = fileName
+	var b bytes.Buffer
+	out, err = generator.Generate(tf, &b, generator.WithFileName(fileName))
+	if err != nil {
+		return "", out, tf, fmt.Errorf("generate: %w", err)
+	}
+	return b.String(), out, tf, nil
+}
